@@ -440,7 +440,14 @@ impl<'a> IntoIterator for &'a Label {
 impl fmt::Display for Label {
     fn fmt(&self, f: &mut fmt::Formatter<'_>) -> fmt::Result {
         for ch in self.iter() {
-            if ch == b' ' || ch == b'.' || ch == b'\\' {
+            if ch == b' '
+                || ch == b'.'
+                || ch == b'\\'
+                || ch == b'"'
+                || ch == b';'
+                || ch == b'('
+                || ch == b')'
+            {
                 write!(f, "\\{}", ch as char)?;
             } else if !(0x20..0x7F).contains(&ch) {
                 write!(f, "\\{:03}", ch)?;
